@@ -158,6 +158,7 @@ impl CaseCtx {
                 // under test runs (it may crash or hang on this very input)
                 println!("RENDERED {}", serde_json::to_string(&v).unwrap_or_default());
                 let _ = std::io::stdout().flush();
+                let _ = std::fs::remove_dir_all(format!("{}/work/render.{}", verif_root(), std::process::id()));
                 std::process::exit(0);
             }
             self.sample = Some(v);
